@@ -31,7 +31,9 @@ META = dict(
     technique='recurrence-term inspection of the superposition loop, dependence '
               'of every per-channel quantity on the loop label, recursion '
               'structure of get_component_list, canonical-form check of the '
-              'polarisation normalisation',
+              'polarisation normalisation'
+              "; truth table of prep_schema's channel pairing; pairing rule of labell"
+              'ed-array parameters in the parameter map',
     level_text='Static: decides S1-S3, i.e. that the Python layer sums all members, '
                'selects every per-channel quantity by label and normalises the '
                'reference -- necessary conditions of the three clauses that hold '
